@@ -18,11 +18,13 @@ let value t : value =
   match count t with
   | None -> { coin = coin; multiasset_of = None }
   | Some k ->
-    let es = rep k (fun () -> let p = bytes t in let n = bytes t in let q = num t in ((p, n), q)) in
+    (* name token `!` = the policy is inserted with an empty asset map (MultiAsset::insert(policy, Assets::new())) *)
+    let es = rep k (fun () -> let p = bytes t in let nt = next t in let q = num t in (p, (if nt = "!" then None else Some (bytes_of_hex nt)), q)) in
     (* a trailing E<k> marks k policies with an empty asset map (never produced by the model's printer for values the
        generator builds; kept so that such a line still parses) *)
     (match peek t with Some s when String.length s > 1 && s.[0] = 'E' && s.[1] >= '0' && s.[1] <= '9' -> ignore (next t) | _ -> ());
-    { coin = coin; multiasset_of = Some (ma_of_entries es) }
+    let ma = List.fold_left (fun m (p, n, q) -> match n with Some n -> ma_set_asset p n q m | None -> ma_insert p [] m) [] es in
+    { coin = coin; multiasset_of = Some ma }
 
 let cert t : cert =
   let tag = num t in
@@ -82,6 +84,9 @@ let parse_op2 t : op2 =
   | Some "dwd" -> ignore (next t);
     let k = (match count t with Some k -> k | None -> 0) in
     OpSetWithdrawalsDeprecated (rep k (fun () -> let a = num t in let c = num t in let sc = (next t = "1") in ((a, c), sc)))
+  | Some "kprops" -> ignore (next t);
+    let k = (match count t with Some k -> k | None -> 0) in
+    OpProposalsKeyed (rep k (fun () -> let i = num t in let d = num t in (i, d)))
   | _ -> Old (parse_op t)
 
 type scenario = { cfg : config; utxos : (n * value) list; ops : op2 list }
